@@ -321,6 +321,9 @@ pub enum ObjFault {
     Fail,
     /// put only: the object is left truncated (first half), then an error is returned
     TruncatedPut,
+    /// get only: the call succeeds but one byte of the returned copy is flipped (a transient read corruption, as the
+    /// repository's own SimulatedObjectStore injects with get_corrupt_prob); the stored object is intact
+    CorruptRead,
 }
 
 impl ObjFault {
@@ -328,6 +331,7 @@ impl ObjFault {
         match self {
             ObjFault::Fail => "fail",
             ObjFault::TruncatedPut => "truncated-put",
+            ObjFault::CorruptRead => "corrupt-read",
         }
     }
 }
@@ -356,6 +360,8 @@ struct ObjInner {
     calls: usize,
     actor: String,
     yield_each_op: bool,
+    /// (substring, n): the n-th (1-based) get from now on whose key contains the substring returns a corrupted copy
+    corrupt_get: Option<(String, usize)>,
 }
 
 /// Logging, fault-injecting object store. Operations are atomic (like the repo's in-memory and
@@ -399,6 +405,10 @@ impl VObjStore {
     }
     pub fn set_actor(&self, a: &str) {
         self.inner.lock().unwrap().actor = a.to_string();
+    }
+    /// The n-th (1-based) `get` from now on of a key containing `substring` succeeds with one flipped byte.
+    pub fn corrupt_nth_get(&self, substring: &str, n: usize) {
+        self.inner.lock().unwrap().corrupt_get = if n == 0 { None } else { Some((substring.to_string(), n)) };
     }
     pub fn set_yield(&self, y: bool) {
         self.inner.lock().unwrap().yield_each_op = y;
@@ -465,7 +475,7 @@ impl ObjectStore for VObjStore {
                     self.inner.lock().unwrap().objects.insert(key.to_string(), data[..data.len() / 2].to_vec());
                     Err(inj())
                 }
-                Some(ObjFault::Fail) => Err(inj()),
+                Some(ObjFault::Fail) | Some(ObjFault::CorruptRead) => Err(inj()),
             };
             self.finish("put", key, res.is_ok(), fault, actor, data.to_vec());
             res
@@ -474,15 +484,36 @@ impl ObjectStore for VObjStore {
 
     fn get<'a>(&'a self, key: &'a str) -> Pin<Box<dyn Future<Output = IoResult<Vec<u8>>> + Send + 'a>> {
         Box::pin(async move {
-            let (fault, y, actor) = self.begin();
+            let (mut fault, y, actor) = self.begin();
+            {
+                let mut i = self.inner.lock().unwrap();
+                let hit = match &mut i.corrupt_get {
+                    Some((sub, n)) if key.contains(sub.as_str()) => {
+                        *n -= 1;
+                        *n == 0
+                    }
+                    _ => false,
+                };
+                if hit {
+                    i.corrupt_get = None;
+                    fault = Some(ObjFault::CorruptRead);
+                }
+            }
             if y {
                 YieldOnce(false).await;
             }
-            let res = if fault.is_some() {
+            let res = if fault.is_some() && fault != Some(ObjFault::CorruptRead) {
                 Err(inj())
             } else {
                 match self.inner.lock().unwrap().objects.get(key) {
-                    Some(d) => Ok(d.clone()),
+                    Some(d) => {
+                        let mut d = d.clone();
+                        if fault == Some(ObjFault::CorruptRead) && !d.is_empty() {
+                            let mid = d.len() / 2;
+                            d[mid] ^= 0xFF;
+                        }
+                        Ok(d)
+                    }
                     None => Err(IoError::new(ErrorKind::NotFound, format!("not found: {key}"))),
                 }
             };
